@@ -1383,6 +1383,18 @@ class VarSub(Vars):
         indices_all = super().get_ind()
         return indices_all[self.indices].flatten()
 
+    def assign(self, values):
+
+        if self.model.mtype != 'S':
+            raise ValueError('Unsupported variables.')
+        if not isinstance(values, (np.ndarray, Real)):
+            raise TypeError('The second argument must be numerical values.')
+
+        shape = np.asarray(self.indices).shape
+        values = np.array(values, dtype=float) + np.zeros(shape, dtype=float)
+
+        return RandVal(self, values.reshape(shape))
+
     def __getitem__(self, item):
 
         new_indices = self.indices[item]
@@ -3025,7 +3037,7 @@ class RoAffine:
             if not isinstance(arg, RandVal):
                 raise TypeError('Unsupported type for defining random variable values.')
 
-            index = range(arg.rvar.first, arg.rvar.last)
+            index = arg.rvar.get_ind()
             rvec[index] = arg.values.ravel()
 
         raffine_value = self.raffine()
@@ -4944,7 +4956,7 @@ class DecRoAffine(RoAffine):
             if not isinstance(arg, RandVal):
                 raise TypeError('Unsupported type for defining random variable values.')
 
-            index = range(arg.rvar.first, arg.rvar.last)
+            index = arg.rvar.get_ind()
             # rvec[index] = arg.values.ravel()
             if not arg.sw:
                 rvecs.loc[:, index] = arg.values.ravel()
